@@ -855,7 +855,7 @@ func (r *Run) boundedDo(f *fsession, ch chan doResult, what string) doResult {
 func runC06(r *Run) {
 	installHooks()
 	hub.reset()
-	r.st.Rule = "peer scripts over {silence, drop after every byte k of the response frame, server close packet, garbage, refused dials, stalled peer that stops reading (write queue fills; TCP and WebSocket), WebSocket re-dial whose upgrade is never answered} x phases {auth, steady state, reconnect} x calls issued before, during and after the fault, on TCP (and WebSocket where expressible): every request call must return a response or an error within request+dial+auth timeouts + slack and never panic (watchdog, recover(), goroutine dump as replay); waiter-sweep and nil-conn regressions are scripted; selected histories are replayed by Model/Waiters.v and Model/Life.v. Also: a caller context with its own later deadline (the request timeout still bounds the call); a host that leaves connection attempts unanswered after the loss (loopback listener with backlog 0 and a full accept queue): calls made during the recovery return within the bounds. distinct = distinct request lines"
+	r.st.Rule = "peer scripts over {silence, drop after every byte k of the response frame, server close packet, garbage, refused dials, stalled peer that stops reading (write queue fills; TCP and WebSocket), WebSocket re-dial whose upgrade is never answered} x phases {auth, steady state, reconnect} x calls issued before, during and after the fault, on TCP (and WebSocket where expressible): every request call must return a response or an error within request+dial+auth timeouts + slack and never panic (watchdog, recover(), goroutine dump as replay); waiter-sweep and nil-conn regressions are scripted; selected histories are replayed by Model/Waiters.v and Model/Life.v. Also: a caller context with its own later deadline (the request timeout still bounds the call); a host that leaves connection attempts unanswered after the loss (loopback listener with backlog 0 and a full accept queue): calls made during the recovery return within the bounds. A stalled peer with the keepalive running and a write queue of 1 (the heartbeat itself finds the queue full); a WebSocket ping from the peer before a call; a request call after a refused first Dial and on a client never dialled (an error, no panic). distinct = distinct request lines"
 	// silence
 	for _, trans := range []string{"tcp", "ws"} {
 		if f, err := openF(trans); err == nil {
